@@ -172,14 +172,28 @@ std::vector<uint32_t> SymbolValues(const POp &op) {
   Rng r(op.seed);
   if (op.d >= 100) {
     // Table-shape mode: K distinct symbols with equal counts plus one dominant
-    // symbol whose share of the total is close to a power of two, so that its
-    // normalised probability lands on (or next to) the boundaries of the
-    // variable-length table entries (2^6, 2^14) at every rANS precision.
+    // symbol whose share of the total puts its normalised probability on (or
+    // next to) a boundary of the variable-length table entries (2^6, 2^14) at
+    // the rANS precision this symbol count and compression level select.
     const int j = op.d - 100;
     const size_t K = static_cast<size_t>(128) << (j % 4);
     const size_t reps = 8;
-    const int share_log2 = 1 + (j / 4) % 6;
-    const double share = 1.0 / static_cast<double>(1u << share_log2);
+    int bits = 0;
+    for (size_t u = K + 1; u; u >>= 1) ++bits;  // MostSignificantBit(K + 1) + 1
+    const int level = (op.c >> 2) % 11;
+    if (level < 4) {
+      bits -= 2;
+    } else if (level < 6) {
+      bits -= 1;
+    } else if (level > 9) {
+      bits += 2;
+    } else if (level > 7) {
+      bits += 1;
+    }
+    bits = std::min(std::max(1, bits), 18);
+    const int prec = std::min(20, std::max(12, 3 * bits / 2));
+    const int boundary = ((j & 4) && prec >= 15) ? 14 : 6;
+    const double share = 1.0 / static_cast<double>(1u << (prec - boundary));
     const double rest = static_cast<double>(K * reps);
     const double jitter = 1.0 + (r.Unit() - 0.5) * 0.06;
     size_t Z = static_cast<size_t>(rest * share / (1.0 - share) * jitter);
@@ -785,10 +799,12 @@ PPlan GeneratePrimPlan(uint64_t seed, bool big) {
       op.b = static_cast<int>(ro.Range(1, 4));
       op.c = static_cast<int>(ro.Below(3)) | (static_cast<int>(ro.Below(11)) << 2);
       op.d = static_cast<int>(ro.Range(1, 18));
-      if (ro.Fork("shape").Chance(1, 6)) {
+      if (ro.Fork("shape").Chance(1, 4)) {
         op.a = 1;
         op.b = 1;
-        op.d = 100 + static_cast<int>(ro.Fork("shape-j").Below(24));
+        op.d = 100 + static_cast<int>(ro.Fork("shape-j").Below(8));
+        // Mostly the raw scheme (the only one whose tables get past 12 bits).
+        if (ro.Fork("shape-raw").Chance(2, 3)) op.c = (op.c & ~3) | 2;
       }
     }
     if (op.k == P_BITREGION) {
